@@ -107,7 +107,7 @@ def work(item):
                 continue
             res['obligations'] += 1
             prob = float_replay(m, ps, item, None)
-            if kind == 'exc' and prob:
+            if prob:
                 res['violations'].append(('density:exception', '%s: %s' % (type(val).__name__, str(val)[:150]) + ' / ' + prob,
                                           dict(kind='density', item=str(item[:4]), concrete=prob)))
             else:
